@@ -3,17 +3,26 @@ use chess_api::{abi_stable::export_root_module, Board, MoveResult};
 
 #[export_root_module]
 fn load_api() -> chess_api::ChessApiRefRaw {
-    PrefixTypeTrait::leak_into_prefix(chess_api::ChessApi::new(|| ChessBot {
-        three_fold: chess_engine::ThreeFold::new(),
-        board: Board::standard(),
-        engine: chess_engine::Engine::default(),
-    }))
+    PrefixTypeTrait::leak_into_prefix(chess_api::ChessApi::new(ChessBot::new))
 }
 
 pub struct ChessBot {
     three_fold: chess_engine::ThreeFold,
     engine: chess_engine::Engine,
     board: Board,
+}
+
+impl ChessBot {
+    fn new() -> Self {
+        let mut bot = ChessBot {
+            three_fold: chess_engine::ThreeFold::new(),
+            board: Board::standard(),
+            engine: chess_engine::Engine::default(),
+        };
+        // the starting position is its own first occurrence
+        bot.three_fold.add(bot.board);
+        bot
+    }
 }
 
 impl chess_api::ChessEngineTrait for ChessBot {
@@ -25,6 +34,8 @@ impl chess_api::ChessEngineTrait for ChessBot {
     fn set_board(&mut self, board: Board) {
         self.board = board;
         self.three_fold = chess_engine::ThreeFold::new();
+        // the installed position is its own first occurrence
+        self.three_fold.add(board);
     }
 
     fn make_move(&mut self, mv: chess_api::StableChessMove) -> MoveResult {
@@ -54,11 +65,7 @@ impl chess_api::ChessEngineTrait for ChessBot {
 #[cfg(rustyyato_chess_verif)]
 impl ChessBot {
     pub fn verif_new() -> Self {
-        ChessBot {
-            three_fold: chess_engine::ThreeFold::new(),
-            board: Board::standard(),
-            engine: chess_engine::Engine::default(),
-        }
+        Self::new()
     }
 
     /// how often the repetition table has seen `board`
